@@ -182,4 +182,4 @@ package PVM
 // ---- operand pre-decoding (C03: no run-time panic for any code bytes; C01: fields hold the A.5 operands) ----
 //@ func decodeOperands
 //@   props C03
-//@   requires wf: instr != nil && int(instr.PC) < len(idata) && instr.SkipLen <= 24 && len(idata) < 4294967296
+//@   requires wf: instr != nil && int(instr.PC) + 32 <= len(idata) && instr.SkipLen <= 24 && len(idata) < 4294967296
